@@ -46,7 +46,7 @@ rows=[]
 for mf in sorted(glob.glob(root+'/*/meta.json')):
     meta=json.load(open(mf)); rows.append((os.path.basename(os.path.dirname(mf)),meta))
 with open(root+'/INDEX.md','w') as f:
-    f.write('# Seeded breaking changes\n\nEach was written by an independent sub-agent that saw only the property text and its own worktree, then confirmed (suite passes with the change, demonstration fails with it and passes without) and run against the quick tier of the checks. Round 1 = ids `Cxx-n`, rounds 2 and 3 = ids `Cxx-r2-n` / `Cxx-r3-n` (first pass = the checks as they stood when that round's agents started; final pass = after the strengthening that followed).\n\n| id | breaks / needs | confirmed | detected by (final) | missed on first pass |\n|---|---|---|---|---|\n')
+    f.write('# Seeded breaking changes\n\nEach was written by an independent sub-agent that saw only the property text and its own worktree, then confirmed (suite passes with the change, demonstration fails with it and passes without) and run against the quick tier of the checks. Round 1 = ids `Cxx-n`, rounds 2 and 3 = ids `Cxx-r2-n` / `Cxx-r3-n` (first pass = the checks as they stood when the agents of that round started; final pass = after the strengthening that followed).\n\n| id | breaks / needs | confirmed | detected by (final) | missed on first pass |\n|---|---|---|---|---|\n')
     for sid,meta in rows:
         c=meta.get('confirmed_by_me',{})
         conf=c.get('demo_passes_on_clean_tree') and c.get('suite_passes_with_change') and c.get('demo_fails_with_change')
